@@ -5,6 +5,7 @@ from common import enc_f, dec_f, close, rng
 import estgen
 
 LEAN_MODULE = 'PGM.Properties.C08'
+LEAN_EXTRA = ['PGM.Properties.C08B']
 TRUSTED = ['Lean 4.33 kernel', 'axioms: propext, Classical.choice, Quot.sound',
            'hand model PGM/Model/Solvers.lean (three solvers as state machines over an arbitrary marginal oracle and loss) and GM.mle tied to src/mbi/inference.py / graphical_model.py by this correspondence run (Float instance)',
            'the 1e-100 offset inside Factor.log (tau): theorems are for tau = 0, the check uses tolerance 1e-6 relative']
